@@ -1,7 +1,7 @@
 ------------------------- MODULE ParamGettersTrace -------------------------
 (* Trace judge for C08's getters half (code -> spec).  A trace is [ev |-> <<event, ...>>]; an event
    is one getter call on a real request, recorded at its return:
-     [present, convs, call, res, v, vs, stored, sv, svs]
+     [present, zero, convs, call, res, v, vs, stored, sv, svs]
        present, convs  the parameter per the REFERENCE reading of the query string (exported by
                        QueryStringTrace / MC_QueryString) and the reference conversions of its values
        call            as in ParamGetters
@@ -24,8 +24,7 @@ TInit == tid \in 1..Len(Traces) /\ l = 1 /\ verdict = "ok"
 
 Is400(r) == r \in {"missing", "invalid", "other400"}
 
-Judge(e) ==
-    LET x == Outcome(e.present, e.convs, e.call) IN
+JudgeAgainst(e, x) ==
     IF e.res = "crash" THEN "P:exception"
     ELSE IF x.res = "invalid" /\ x.why \in {"min", "max"} /\ e.res = "value" THEN "P:bounds"
     ELSE IF ~(Is400(x.res) /\ Is400(e.res)) /\ e.res # x.res THEN "P:outcome"
@@ -34,6 +33,15 @@ Judge(e) ==
     ELSE IF e.stored /\ (e.sv # x.v \/ e.svs # x.vs) THEN "P:store"
     ELSE IF e.res # x.res THEN "D:error_class"
     ELSE "ok"
+
+(* accepted iff some acceptable outcome matches; otherwise the clause is named against the main one
+   (for a name present with zero values: the absent protocol) *)
+Judge(e) ==
+    LET X == Outcomes(e.present, e.zero, e.convs, e.call)
+        main == IF e.zero /\ e.call.kind # "has" THEN Absent(e.call) ELSE CHOOSE x \in X : TRUE
+    IN  IF e.present /\ e.zero THEN "H:status"
+        ELSE IF \E x \in X : JudgeAgainst(e, x) = "ok" THEN "ok"
+        ELSE JudgeAgainst(e, main)
 
 Step == /\ l >= 1 /\ l <= Len(T.ev) /\ verdict = "ok"
         /\ verdict' = Judge(Ev)
